@@ -2,60 +2,303 @@ import OpusProofs.CwrsModel
 import OpusProofs.CwrsTable
 /-
   OpusProofs.CwrsCache — the static mode's pulse cache (static_modes_float.h: cache_index50 / cache_bits50,
-  regenerated) against the re-implemented `compute_pulse_cache`, against V(N,K), and the list of every
-  (N,K) the static mode can hand to the PVQ coder.
+  regenerated) against V(N,K) and the PVQ table: every (N,K) the static mode can hand to the PVQ coder has
+  V(N,K) < 2^32, a table walk that stays inside the table rows, and a cache word that brackets 8·log2 V(N,K).
+
+  Kernel evaluation is kept cheap by (a) reading U(N,K) from the row-by-row copy `pvqURows` of the table
+  (proved equal to the slicing of the flat data that `Utab` uses), and (b) walking each cache row once.
 -/
 namespace OpusProofs.CwrsCache
 open Opus Opus.Cwrs Opus.Rate OpusProofs.CwrsU OpusProofs.CwrsTable OpusProofs.CwrsModel
 open Opus.Gen.CeltTables
 
-/-- Every `(N, K, cache word)` reachable through `cache = m->cache.bits + m->cache.index[(LM+1)*m->nbEBands+band]`
-    (rate.h:59-63, 84-86) for `band < nbEBands`, `LM+1 ≤ maxLM+1`: `N` is the (possibly split) band size
-    `(eBands[band+1]-eBands[band])<<(LM+1)>>1`, `K = get_pulses(q)` for a pseudo-pulse count `1 ≤ q ≤ cache[0]`,
-    and the word is `cache[q]`. -/
-def reachable : List (Nat × Nat × Nat) :=
-  (List.range ((maxLM + 2) * nbEBands)).flatMap fun p =>
-    match cacheIndex[p]? with
-    | some ci =>
-      if ci < 0 then [] else
-        let N := bandN eBands (p / nbEBands) (p % nbEBands)
-        let Kp := cacheBits.getD ci.toNat 0
-        (List.range Kp).map fun j => (N, getPulses (j + 1), cacheBits.getD (ci.toNat + j + 1) 0)
-    | none => []
+/-! ## Fast table reads -/
 
-/-- All words a walk for `(N,K)` can touch lie inside their table rows. -/
+/-- The extractor's row-by-row copy is the slicing of `pvqUData` by `pvqURowOff`. -/
+theorem rows_eq : pvqURows = (List.range nRows).map rowSlice := by decide +kernel
+
+theorem rows_getD {r : Nat} (hr : r < nRows) : pvqURows.getD r [] = rowSlice r := by
+  rw [rows_eq]
+  simp [List.getD, hr]
+
+/-- `U(a,b)` read from the row-by-row table: row `min a b`, column `max a b`. -/
+def fastU (a b : Nat) : Nat := (pvqURows.getD (min a b) []).getD (max a b - min a b) 0
+
+theorem rowSlice_get {r c : Nat} (h : inTab r c) : (rowSlice r)[c - r]? = some (U r c) := by
+  obtain ⟨hr, hrc, hc⟩ := h
+  obtain ⟨hs, _⟩ := rows_row hr
+  rw [hs]
+  simp only [rowWant, rowList_spec, List.getElem?_drop, List.getElem?_map]
+  have e : r + (c - r) = c := by omega
+  rw [e]
+  have : c < rowEnd r - offL r := by omega
+  simp [this]
+
+theorem fastU_eq {a b : Nat} (h : inTab (min a b) (max a b)) : fastU a b = U a b := by
+  unfold fastU
+  rw [rows_getD h.1]
+  have := rowSlice_get h
+  simp only [List.getD, this, Option.getD_some]
+  by_cases hab : a ≤ b
+  · rw [Nat.min_eq_left hab, Nat.max_eq_right hab]
+  · have hba : b ≤ a := by omega
+    rw [Nat.min_eq_right hba, Nat.max_eq_left hba, U_symm]
+
+/-! ## The region of the table a walk for (N,K) can touch -/
+
+/-- Every word `CELT_PVQ_U_ROW[r][c]`, `r ≤ min(N,K+1)`, `c ≤ max(N,K+1)`, lies inside its row. -/
 def regionOk (N K : Nat) : Bool :=
-  (List.range (min N (K + 1) + 1)).all fun r => decide (r < nRows ∧ offL r + max N (K + 1) < rowEnd r)
+  (List.range (min N (K + 1) + 1)).all fun r =>
+    decide (r < nRows) && decide (offL r + max N (K + 1) < rowEnd r)
 
-/-- `V(N,K)` read from the table fits 32 bits and the cache word `b` brackets `8·log2 V`:
-    `V^8 ≤ 2^(b+1) < 4·V^8`, i.e. `log2 V ≤ (b+1)/8 < log2 V + 1/4`. -/
-def pairOk (e : Nat × Nat × Nat) : Bool :=
-  regionOk e.1 e.2.1 &&
-  match pvqV Utab e.1 e.2.1 with
-  | .ok v => decide (v < 4294967296) && decide (v ^ 8 ≤ 2 ^ (e.2.2 + 1)) && decide (2 ^ (e.2.2 + 1) < 4 * v ^ 8)
-  | _ => false
+theorem region_inTab {N K r c : Nat} (h : regionOk N K = true) (hrc : r ≤ c)
+    (hr : r ≤ min N (K + 1)) (hc : c ≤ max N (K + 1)) : inTab r c := by
+  simp only [regionOk, List.all_eq_true, List.mem_range, Bool.and_eq_true, decide_eq_true_eq] at h
+  obtain ⟨h1, h2⟩ := h r (by omega)
+  exact ⟨h1, hrc, by omega⟩
 
-theorem reachable_ok : reachable.all pairOk = true := by decide +kernel
+/-- Inside the region the regenerated table is `U`: memory safety of the walk and its values. -/
+theorem agree_of_region {N K : Nat} (h : regionOk N K = true) : Agree Utab N K := by
+  intro r c hrc hd
+  have hr : r ≤ min N (K + 1) := by
+    rcases hd with hd | hd
+    · exact Nat.le_min.mpr ⟨hd.1, by omega⟩
+    · exact Nat.le_min.mpr ⟨by omega, hd.2⟩
+  have hc : c ≤ max N (K + 1) := by
+    rcases hd with hd | hd
+    · exact Nat.le_trans hd.2 (Nat.le_max_right _ _)
+    · exact Nat.le_trans hd.1 (Nat.le_max_left _ _)
+  exact ((Utab_spec r c).1 (region_inTab h hrc hr hc)).1
 
-theorem reachable_length : reachable.length = 1912 := by decide +kernel
+def fastV (N K : Nat) : Nat := fastU N K + fastU N (K + 1)
+
+theorem fastV_eq {N K : Nat} (h : regionOk N K = true) : fastV N K = V N K := by
+  unfold fastV V
+  have h1 : inTab (min N K) (max N K) :=
+    region_inTab h (Nat.le_trans (Nat.min_le_left _ _) (Nat.le_max_left _ _))
+      (Nat.le_min.mpr ⟨Nat.min_le_left _ _, Nat.le_trans (Nat.min_le_right _ _) (by omega)⟩)
+      (Nat.max_le.mpr ⟨Nat.le_max_left _ _, Nat.le_trans (by omega) (Nat.le_max_right _ _)⟩)
+  have h2 : inTab (min N (K + 1)) (max N (K + 1)) :=
+    region_inTab h (Nat.le_trans (Nat.min_le_left _ _) (Nat.le_max_left _ _)) (Nat.le_refl _) (Nat.le_refl _)
+  rw [fastU_eq h1, fastU_eq h2]
+
+/-! ## Every reachable (N, K, cache word) -/
+
+/-- The facts checked for one `(N, K)` with cache word `b`: the walk stays inside the table, `V(N,K) < 2^32`,
+    and `V^8 ≤ 2^(b+1) < 4·V^8`, i.e. `log2 V ≤ (b+1)/8 < log2 V + 1/4` (the cache stores `bits-1` in 1/8 bit). -/
+def pairOk (N K b : Nat) : Bool :=
+  regionOk N K && Nat.blt (fastV N K) 4294967296 &&
+    Nat.ble (fastV N K ^ 8) (2 ^ (b + 1)) && Nat.blt (2 ^ (b + 1)) (4 * fastV N K ^ 8)
+
+theorem pairOk_spec {N K b : Nat} (h : pairOk N K b = true) :
+    Agree Utab N K ∧ V N K < 4294967296 ∧ V N K ^ 8 ≤ 2 ^ (b + 1) ∧ 2 ^ (b + 1) < 4 * V N K ^ 8 := by
+  simp only [pairOk, Bool.and_eq_true, Nat.blt_eq, Nat.ble_eq] at h
+  obtain ⟨⟨⟨h1, h2⟩, h3⟩, h4⟩ := h
+  rw [fastV_eq h1] at h2 h3 h4
+  exact ⟨agree_of_region h1, h2, h3, h4⟩
+
+/-- Walk the words `cache[j+1], cache[j+2], …` of one cache row for band size `N`. -/
+def walkOk (N : Nat) : Nat → List Nat → Bool
+  | _, [] => true
+  | j, b :: rest => pairOk N (getPulses (j + 1)) b && walkOk N (j + 1) rest
+
+theorem walkOk_spec (N : Nat) : ∀ (l : List Nat) (j : Nat), walkOk N j l = true →
+    ∀ i, i < l.length → pairOk N (getPulses (j + i + 1)) (l.getD i 0) = true := by
+  intro l
+  induction l with
+  | nil => intro j _ i hi; simp at hi
+  | cons b rest ih =>
+    intro j h i hi
+    simp only [walkOk, Bool.and_eq_true] at h
+    cases i with
+    | zero => simpa using h.1
+    | succ i =>
+      have := ih (j + 1) h.2 i (by simpa using hi)
+      simpa [Nat.add_assoc, Nat.add_comm 1 i] using this
+
+/-- Non-decreasing list. -/
+def monoOk : List Nat → Bool
+  | a :: b :: t => Nat.ble a b && monoOk (b :: t)
+  | _ => true
+
+theorem monoOk_spec : ∀ (l : List Nat), monoOk l = true → ∀ i, i + 1 < l.length → l.getD i 0 ≤ l.getD (i + 1) 0 := by
+  intro l
+  induction l with
+  | nil => intro _ i hi; simp at hi
+  | cons a t ih =>
+    intro h i hi
+    cases t with
+    | nil => simp at hi
+    | cons b t =>
+      simp only [monoOk, Bool.and_eq_true, Nat.ble_eq] at h
+      cases i with
+      | zero => simpa using h.1
+      | succ i =>
+        have := ih h.2 i (by simpa using hi)
+        simpa using this
+
+/-- One cache row `cache[0] = K', cache[1..K']`: present in the array, non-decreasing, every word consistent. -/
+def rowOk (N : Nat) : List Nat → Bool
+  | [] => false
+  | kp :: rest => Nat.ble kp rest.length && walkOk N 0 (rest.take kp) && monoOk (rest.take kp)
+
+/-- Position `p = (LM+1)*nbEBands + band` of `cache.index`. -/
+def posOk (p : Nat) : Bool :=
+  match cacheIndex.getD p (-1) with
+  | .ofNat ci => rowOk (bandN eBands (p / nbEBands) (p % nbEBands)) (cacheBits.drop ci)
+  | .negSucc _ => true
+
+def allPosOk : Bool := (List.range ((maxLM + 2) * nbEBands)).all posOk
+
+theorem allPosOk_true : allPosOk = true := by decide +kernel
+
+theorem cacheIndex_length : cacheIndex.length = (maxLM + 2) * nbEBands := by decide +kernel
+
+/-- What `allPosOk` establishes for position `p` with a cache row at `ci`, pseudo-pulse count `q` in `1..cache[0]`. -/
+theorem pos_facts {p ci q : Nat} (hp : p < (maxLM + 2) * nbEBands) (hci : cacheIndex[p]? = some (Int.ofNat ci))
+    (hq1 : 1 ≤ q) (hq : q ≤ cacheBits.getD ci 0) :
+    ci + q < cacheBits.length ∧
+    pairOk (bandN eBands (p / nbEBands) (p % nbEBands)) (getPulses q) (cacheBits.getD (ci + q) 0) = true ∧
+    (q < cacheBits.getD ci 0 → cacheBits.getD (ci + q) 0 ≤ cacheBits.getD (ci + q + 1) 0) := by
+  have h := allPosOk_true
+  simp only [allPosOk, List.all_eq_true, List.mem_range] at h
+  have hpos := h p hp
+  have hg : cacheIndex.getD p (-1) = Int.ofNat ci := by simp [List.getD, hci]
+  simp only [posOk, hg] at hpos
+  -- shape of the row
+  generalize hrow : cacheBits.drop ci = row at hpos
+  have hkp : cacheBits.getD ci 0 = row.getD 0 0 := by
+    rw [← hrow]; simp [List.getD, List.getElem?_drop]
+  cases row with
+  | nil => simp [rowOk] at hpos
+  | cons kp rest =>
+    simp only [rowOk, Bool.and_eq_true, Nat.ble_eq] at hpos
+    obtain ⟨⟨hlen, hwalk⟩, hmono⟩ := hpos
+    have hkp' : cacheBits.getD ci 0 = kp := by rw [hkp]; simp [List.getD]
+    rw [hkp'] at hq
+    have hrest : ∀ i, rest.getD i 0 = cacheBits.getD (ci + i + 1) 0 := by
+      intro i
+      have : (cacheBits.drop ci).getD (i + 1) 0 = cacheBits.getD (ci + (i + 1)) 0 := by
+        simp [List.getD, List.getElem?_drop]
+      rw [hrow] at this
+      simpa [List.getD, Nat.add_assoc] using this
+    have htake : ∀ i, i < kp → (rest.take kp).getD i 0 = rest.getD i 0 := by
+      intro i hi; simp [List.getD, hi]
+    have hlt : (rest.take kp).length = kp := by simp [List.length_take]; omega
+    have hdl : (cacheBits.drop ci).length = rest.length + 1 := by rw [hrow]; simp
+    rw [List.length_drop] at hdl
+    obtain ⟨q', rfl⟩ : ∃ q', q = q' + 1 := ⟨q - 1, by omega⟩
+    refine ⟨by omega, ?_, ?_⟩
+    · have := walkOk_spec _ _ 0 hwalk q' (by omega)
+      rw [htake q' (by omega), hrest q'] at this
+      simpa [Nat.add_assoc] using this
+    · intro hlt2
+      rw [hkp'] at hlt2
+      have := monoOk_spec _ hmono q' (by omega)
+      rw [htake q' (by omega), htake (q' + 1) (by omega), hrest q', hrest (q' + 1)] at this
+      simpa [Nat.add_assoc] using this
+
+
+/-! ## Reachable (N, K) in terms of band and frame size -/
+
+/-- `(N, K)` is a (vector size, pulse count) pair the static mode can hand to the PVQ coder, and `b` its cache word:
+    `cache = m->cache.bits + m->cache.index[(LM+1)*m->nbEBands+band]` (rate.h:59-63, 84-86) for `band < nbEBands`,
+    `lm1 = LM+1 ≤ maxLM+1` (`LM = -1` is reached by splitting a band at `LM = 0`, bands.c quant_partition),
+    `N = (eBands[band+1]-eBands[band])<<(LM+1)>>1`, `K = get_pulses(q)` for a pseudo-pulse count `1 ≤ q ≤ cache[0]`,
+    `b = cache[q]`. -/
+def Reach (N K b : Nat) : Prop :=
+  ∃ lm1 band ci q, lm1 ≤ maxLM + 1 ∧ band < nbEBands ∧
+    cacheIndex[lm1 * nbEBands + band]? = some (Int.ofNat ci) ∧ 1 ≤ q ∧ q ≤ cacheBits.getD ci 0 ∧
+    N = bandN eBands lm1 band ∧ K = getPulses q ∧ b = cacheBits.getD (ci + q) 0
+
+theorem pos_of_band {lm1 band : Nat} (hl : lm1 ≤ maxLM + 1) (hb : band < nbEBands) :
+    lm1 * nbEBands + band < (maxLM + 2) * nbEBands ∧ (lm1 * nbEBands + band) / nbEBands = lm1 ∧
+    (lm1 * nbEBands + band) % nbEBands = band := by
+  have hpos : 0 < nbEBands := by omega
+  refine ⟨?_, ?_, ?_⟩
+  · have : lm1 * nbEBands + nbEBands ≤ (maxLM + 2) * nbEBands := by
+      have := Nat.mul_le_mul_right nbEBands (show lm1 + 1 ≤ maxLM + 2 by omega)
+      rwa [Nat.add_mul, Nat.one_mul] at this
+    omega
+  · rw [Nat.add_comm, Nat.add_mul_div_right _ _ hpos, Nat.div_eq_of_lt hb, Nat.zero_add]
+  · rw [Nat.add_comm, Nat.add_mul_mod_self_right, Nat.mod_eq_of_lt hb]
+
+theorem getPulses_pos {q : Nat} (h : 1 ≤ q) : 1 ≤ getPulses q := by
+  unfold getPulses
+  split
+  · exact h
+  · have : 0 < 2 ^ (q / 8 - 1) := Nat.pow_pos (by omega)
+    have : 8 + q % 8 ≤ (8 + q % 8) * 2 ^ (q / 8 - 1) := Nat.le_mul_of_pos_right _ this
+    omega
+
+theorem reach_facts {N K b : Nat} (h : Reach N K b) :
+    1 ≤ K ∧ Agree Utab N K ∧ V N K < 4294967296 ∧ V N K ^ 8 ≤ 2 ^ (b + 1) ∧ 2 ^ (b + 1) < 4 * V N K ^ 8 := by
+  obtain ⟨lm1, band, ci, q, hl, hb, hci, hq1, hq, rfl, rfl, rfl⟩ := h
+  obtain ⟨hp, hdiv, hmod⟩ := pos_of_band hl hb
+  obtain ⟨_, hpair, _⟩ := pos_facts hp hci hq1 hq
+  rw [hdiv, hmod] at hpair
+  exact ⟨getPulses_pos hq1, pairOk_spec hpair⟩
+
+/-- Rows of the cache are inside the array and non-decreasing in the pseudo-pulse count. -/
+theorem rows_monotone {lm1 band ci q : Nat} (hl : lm1 ≤ maxLM + 1) (hb : band < nbEBands)
+    (hci : cacheIndex[lm1 * nbEBands + band]? = some (Int.ofNat ci)) (hq1 : 1 ≤ q) (hq : q ≤ cacheBits.getD ci 0) :
+    ci + q < cacheBits.length ∧ (q < cacheBits.getD ci 0 → cacheBits.getD (ci + q) 0 ≤ cacheBits.getD (ci + q + 1) 0) := by
+  obtain ⟨hp, _, _⟩ := pos_of_band hl hb
+  obtain ⟨h1, _, h3⟩ := pos_facts hp hci hq1 hq
+  exact ⟨h1, h3⟩
+
+/-! ## The shipped cache is what `compute_pulse_cache` computes -/
+
+theorem mapM_loop_ok {α β : Type} (f : α → Res β) (g : α → β) :
+    ∀ (l : List α) (acc : List β), (∀ x ∈ l, f x = .ok (g x)) →
+      List.mapM.loop f l acc = .ok (acc.reverse ++ l.map g) := by
+  intro l
+  induction l with
+  | nil => intro acc _; simp [List.mapM.loop]
+  | cons a t ih =>
+    intro acc h
+    have ha : f a = .ok (g a) := h a (by simp)
+    simp only [List.mapM.loop, ha, Res.bind_ok]
+    rw [ih (g a :: acc) (fun x hx => h x (by simp [hx]))]
+    simp
+
+theorem mapM_ok {α β : Type} (f : α → Res β) (g : α → β) (l : List α) (h : ∀ x ∈ l, f x = .ok (g x)) :
+    l.mapM f = .ok (l.map g) := by
+  unfold List.mapM
+  rw [mapM_loop_ok f g l [] h]; simp
+
+/-- One cache row computed from the fast table. -/
+def fastRow (N K : Nat) : List Nat :=
+  K % 256 :: (List.range K).map fun j => (log2Frac (fastV N (getPulses (j + 1))) BITRES + 256 - 1) % 256
+
+def rowRegion (N K : Nat) : Bool := (List.range K).all fun j => regionOk N (getPulses (j + 1))
+
+theorem cacheRow_eq {N K : Nat} (h : rowRegion N K = true) : cacheRow Utab N K = .ok (fastRow N K) := by
+  simp only [rowRegion, List.all_eq_true, List.mem_range] at h
+  unfold cacheRow fastRow
+  rw [mapM_ok _ (fun j => (log2Frac (fastV N (getPulses (j + 1))) BITRES + 256 - 1) % 256)]
+  · rfl
+  · intro j hj
+    have hr := h j (List.mem_range.mp hj)
+    rw [pvqV_agree (agree_of_region hr) (Nat.le_refl _) (Nat.le_refl _), fastV_eq hr]
+    rfl
+
+/-- The scan of band sizes reproduces `cache.index`, every entry's rows lie inside the table, and the rows
+    recomputed from `V(N,K)` reproduce `cache.bits`. -/
+def cacheCheck : Bool :=
+  decide ((scan eBands nbEBands maxLM).cindex = cacheIndex) &&
+  (scan eBands nbEBands maxLM).entries.all (fun e => rowRegion e.1 e.2) &&
+  decide (((scan eBands nbEBands maxLM).entries.map (fun e => fastRow e.1 e.2)).flatten = cacheBits)
+
+theorem cacheCheck_true : cacheCheck = true := by decide +kernel
 
 /-- `cache->index`, `cache->bits` shipped in static_modes_float.h are what `compute_pulse_cache` computes
     from `eBands` with the regenerated PVQ table. -/
 theorem cache_eq : computePulseCache Utab eBands nbEBands maxLM = .ok (cacheIndex, cacheBits) := by
-  decide +kernel
-
-/-- Each cache row `cache[1..cache[0]]` is non-decreasing (what the binary search of `bits2pulses` needs). -/
-def rowsMonotone : Bool :=
-  (List.range ((maxLM + 2) * nbEBands)).all fun p =>
-    match cacheIndex[p]? with
-    | some ci =>
-      if ci < 0 then true else
-        let Kp := cacheBits.getD ci.toNat 0
-        decide (ci.toNat + Kp < cacheBits.length) &&
-        (List.range (Kp - 1)).all fun j =>
-          decide (cacheBits.getD (ci.toNat + j + 1) 0 ≤ cacheBits.getD (ci.toNat + j + 2) 0)
-    | none => false
-
-theorem rowsMonotone_true : rowsMonotone = true := by decide +kernel
+  have h := cacheCheck_true
+  simp only [cacheCheck, Bool.and_eq_true, decide_eq_true_eq, List.all_eq_true] at h
+  obtain ⟨⟨h1, h2⟩, h3⟩ := h
+  have hm := mapM_ok _ (fun e => fastRow e.1 e.2) _ (fun e he => cacheRow_eq (h2 e he))
+  simp only [computePulseCache, cacheBitsOf, hm, Res.bind_ok, Res.pure_eq, h1, h3]
 
 end OpusProofs.CwrsCache
